@@ -21,7 +21,8 @@ def step_request(st, r):
     """model request for one in_toto_run: the four independent recordings + what the command did"""
     if r.get("payload") is None:
         return None
-    cmd = [] if st["no_command"] else ch.command_for(st["ops"], st["out"], st["err"], st["rc"], st.get("out_repeat", 1))
+    cmd = r["cmd"] if "cmd" in r else \
+        [] if st["no_command"] else ch.command_for(st["ops"], st["out"], st["err"], st["rc"], st.get("out_repeat", 1))
     # universal newlines: what a text-mode reader makes of the script's output
     tr = lambda s: s.replace("\r\n", "\n").replace("\r", "\n")
     return {"name": st["name"], "cmd": cmd, "mat_before": r["mat_before"], "mat_after": r["mat_after"],
@@ -203,6 +204,15 @@ def run(ctx):
         viol += 1
         ctx.violation(pr, {"scenario": "harness/c11.py gpg_chain: two in_toto_run steps with gpg_keyid=master (signing subkey), "
                                        "layout authorising the master, in_toto_verify"})
+    from harness import c11hist
+    hist = {}
+    for nm, fn in (("fault_history", c11hist.fault_history), ("threshold_step", c11hist.threshold_step)):
+        prs, cnt = fn(ctx)
+        hist[nm] = {"cases": cnt, "problems": len(prs)}
+        for text, rp in prs:
+            viol += 1
+            ctx.violation(text[:600], rp)
+    dist["histories"] = hist
     kn, kok, kdetail = core.kernel_sample(ctx, model, limit_chars=40000, max_cases=8)
     ctx.oblige("kernel-vs-extraction-sample", kok, kdetail)
     broken = ctx.broken_obligations()
@@ -222,7 +232,9 @@ def run(ctx):
         "evaluations": steps_total + len(vreqs), "chains": evals, "distinct_nontrivial": nontrivial,
         "rule": "random tree, 1-4 steps each running a script of create/modify/delete/rename operations, random recording options "
                 "(excludes, line-ending normalisation, stream recording, environment, metadata directory, compact JSON, DSSE, two-phase); "
-                "non-trivial = step whose command changed the recorded tree (materials != products)",
+                "non-trivial = step whose command changed the recorded tree (materials != products); histories with the verdict "
+                "fixed by construction (harness/c11hist.py): a refused recording under a base path followed by an honest step of "
+                "the same process (4 ways to fail), one step done by two functionaries with different recording options under threshold 2 (7 option pairs)",
         "samples": samples, "programs": 2, "disagreements_checked": steps_total + len(vreqs), "steps": steps_total,
         "honest_verifications": len(vreqs), "distribution": dist, "kernel_sample_cases": kn,
     }
@@ -232,6 +244,17 @@ def run(ctx):
 
 def replay(ctx, obj):
     r = obj["replay"]
+    if "chain" not in r:
+        # hand-built scenarios and histories: re-run them as they are (deterministic)
+        from harness import c11hist
+        sc = r.get("scenario", "")
+        prs = (c11hist.fault_history(ctx)[0] if sc == "fault_history" else c11hist.threshold_step(ctx)[0] if sc == "threshold_step"
+               else [(p, None) for p in gpg_chain(ctx)])
+        for text, _ in prs:
+            print(text)
+        if prs:
+            print("VIOLATION property=C11 replay=%s" % obj.get("rerun", "").split()[-1])
+        return 1 if prs else 0
     chain = r["chain"]
     recs, project, linkdir = ch.record_chain(ctx, chain)
     model = core.Model()
